@@ -23,7 +23,9 @@ EXPLANATION = (
     "recordings are de-duplicated on (rec_index, state). R-C19-keyclass (shared with C08/C11): whether a "
     "registry key is a synaptic (edge) or a compartment (node) quantity is decided with the BASE module's "
     "name lists, not with a view's filtered ones. R-C19-simulates (shared with C09): every synapse reads "
-    "from and delivers to the compartments its row of .edges names, with the postsynaptic geometry."
+    "from and delivers to the compartments its row of .edges names, with the postsynaptic geometry. "
+    "R-C19-scatter / R-C19-sentinel (shared with C10): at simulation time the trainable values are written to the rows their "
+    "index table names and the -1 padding is dropped."
 )
 ASSUMPTIONS = ["user-defined channels follow the built-in naming convention", "'integrate simulates the displayed model' as a whole is not decided"]
 
@@ -52,6 +54,12 @@ def check(repo, col, tier):
         c09._roles(repo, col, cl, nm, "R-C19-simulates", "R-C19-simulates")
     # ... and the currents of ALL rows that end on one compartment arrive there (they add up)
     c09._additive(repo, col, "R-C19-simulates")
+    # tables -> arrays at simulation time (get_all_parameters / get_all_states): trainable values land on the rows their index table
+    # names, and the -1 padding of groups of unequal size is dropped, not written to the last row (shared with C10 / C05)
+    from . import c10
+    col.rule("R-C19-scatter", "trainable values are scattered into the array space their indices were made for", 4)
+    col.rule("R-C19-sentinel", "padded (-1) trainable indices reach a scatter only through mode='drop' + remap", 2)
+    c10.scatter_sites(repo, col, cl, "R-C19-scatter", "R-C19-sentinel")
     # registries of the base module (channels, groups, ...) are extended on the base's own current registry: an edit made through a
     # second view must see what the first view added (shared with C10/C11/C14)
     col.rule("R-C19-recs", "recordings are (rec_index, state) pairs with unique row labels", 2)
